@@ -17,7 +17,7 @@ RULES = {
          "request in a range around -3..320, i32 extremes, usize and Option forms, fractions in [0,1]; shape, range, "
          "normalisation and coverage judged against the exact aggregated distribution; class as for C03"),
 }
-MODULES = ["Props.C03", "Inst.C03", "Lemmas.BrainLists", "Lemmas.BrainNewton", "Lemmas.BrainProb", "Lemmas.BrainIso", "Lemmas.BrainPopulate", "Lemmas.BrainSpecPS", "Lemmas.BrainSpecMass", "Lemmas.BrainMass", "Props.C03Exact", "Inst.C03Exact", "Inst.C03Single", "Props.C03Series"]
+MODULES = ["Props.C03", "Inst.C03", "Lemmas.BrainLists", "Lemmas.BrainNewton", "Lemmas.BrainProb", "Lemmas.BrainIso", "Lemmas.BrainPopulate", "Lemmas.BrainSpecPS", "Lemmas.BrainSpecMass", "Lemmas.BrainMass", "Props.C03Exact", "Inst.C03Exact", "Inst.C03Single", "Props.C03Series", "Props.C03Scale"]
 
 
 def run(r: Run):
